@@ -175,6 +175,34 @@ var mutators = []cand{
 		s.Balances[i] = s.Balances[i][:l]
 		return true
 	}},
+	{"ragged-later-row-longer-compensated", func(r *rand.Rand, c *ctx, s *channel.State, a *channel.Index) bool {
+		// one more entry than participants in a later asset row, taken from the actor so that the
+		// row's total (and the payment rule for existing participants) is kept
+		if len(s.Balances) < 2 {
+			return false
+		}
+		i := 1 + r.Intn(len(s.Balances)-1)
+		half := new(big.Int).Rsh(s.Balances[i][*a], 1)
+		s.Balances[i][*a] = new(big.Int).Sub(s.Balances[i][*a], half)
+		s.Balances[i] = append(s.Balances[i], half)
+		return true
+	}},
+	{"ragged-first-row-longer-compensated", func(r *rand.Rand, c *ctx, s *channel.State, a *channel.Index) bool {
+		if len(s.Balances) < 2 {
+			return false
+		}
+		half := new(big.Int).Rsh(s.Balances[0][*a], 1)
+		s.Balances[0][*a] = new(big.Int).Sub(s.Balances[0][*a], half)
+		s.Balances[0] = append(s.Balances[0], half)
+		return true
+	}},
+	{"app-refuses-data", func(r *rand.Rand, c *ctx, s *channel.State, _ *channel.Index) bool {
+		if c.app != gen.AppData {
+			return false
+		}
+		s.Data = gen.RefusedData(r)
+		return true
+	}},
 	{"participants+1", func(r *rand.Rand, c *ctx, s *channel.State, _ *channel.Index) bool {
 		for i := range s.Balances {
 			s.Balances[i] = append(s.Balances[i], big.NewInt(0))
@@ -595,6 +623,31 @@ func initCases(r *ev.Run, rng *rand.Rand, c *ctx, m *channel.StateMachine, good 
 		if m.StagingState() != nil {
 			r.Violation("C02/init/refused-but-staged", "a refused initial allocation was staged", w)
 		}
+	}
+	// a well-formed allocation whose data the app refuses (no-app: anything but NoData; the
+	// harness' DataApp: marked data; the payment app documents a panic and is left out)
+	var bad channel.Data
+	switch c.app {
+	case gen.AppData:
+		bad = gen.RefusedData(rng)
+	case gen.AppNone:
+		bad = &gen.BytesData{B: []byte{1, 2, 3}}
+	default:
+		return
+	}
+	a := good.Clone()
+	r.Case(fmt.Sprintf("init app%d n%d a%d app-refuses-data", c.app, n, len(good.Assets)), true)
+	r.Seen("init_mutators", "app-refuses-data")
+	err, pan := try(func() error { return m.Init(a, bad) })
+	w := witness{App: int(c.app), Mutator: "init/app-refuses-data", Candidate: canon.String(&a), Verdict: "refuse", Reason: "the app's ValidInit refuses the data", Got: fmt.Sprint(err, pan)}
+	switch {
+	case pan != nil:
+		r.Violation("C02/init/panic/app-refuses-data", fmt.Sprintf("Init panicked instead of returning an error: %v", pan), w)
+	case err == nil:
+		r.Violation("C02/init/refuse/app-refuses-data", "Init accepted an initial state that the app refuses", w)
+	}
+	if m.Phase() == channel.InitActing && m.StagingState() != nil || err != nil && m.Phase() != channel.InitActing {
+		r.Violation("C02/init/refused-but-staged", "an initial state refused by the app was staged or the phase changed", w)
 	}
 }
 
